@@ -35,9 +35,9 @@ func NewPoolEnv(name string, fn f1testing.ScenarioFn, maxIterations uint64, labe
 	stats := &progress.Stats{}
 	logger := log.NewDiscardLogger()
 	sc := &scenarios.Scenario{Name: name, ScenarioFn: fn}
-	as := workers.NewActiveScenario(sc, m, stats, logger, log.NewSlogLogrusLogger(logger))
+	as := NewActiveScenario(sc, m, stats, logger, log.NewSlogLogrusLogger(logger))
 	as.Setup()
-	return &PoolEnv{Stats: stats, Metrics: m, Registry: reg, Active: as, Manager: workers.New(maxIterations, as), Scenario: sc}
+	return &PoolEnv{Stats: stats, Metrics: m, Registry: reg, Active: as, Manager: NewPoolManager(maxIterations, as), Scenario: sc}
 }
 
 // ---------------------------------------------------------------- hook controller
